@@ -366,13 +366,39 @@ def harvest_ecp(lib=None):
             "vectors": V}
 
 
+def harvest_ec2(lib=None):
+    """Standard DSTU 4145 curves of src/crypto/dstu.c (binary fields) as facts for ec2.py."""
+    t = src("src/crypto/dstu.c")
+    V = []
+    for c in re.findall(r"static const char _(curve\d+pb)_name", t):
+        pp = [int(x) for x in re.search(r"static u16 _%s_p\[4\] = \{([^}]*)\}" % c, t).group(1).split(",")]
+
+        def arr(nm):
+            m = re.search(r"static octet _%s\[\]\s*=\s*\{([^}]*)\}" % nm, t)
+            return None if not m else bytes(int(x, 16) for x in re.findall(r"0x([0-9A-Fa-f]{2})", m.group(1)))
+        no = (pp[0] + 7) // 8
+        v = {"kind": "dstu_curve", "name": c, "oid": c_string(t, "_%s_name" % c), "field": pp,
+             "A": int(re.search(r"static octet _%s_A = (\d+)" % c, t).group(1)),
+             "cofactor": int(re.search(r"static octet _%s_c = (\d+)" % c, t).group(1)),
+             "B_le": hx(arr(c + "_B")), "n_le": hx(arr(c + "_n"))}
+        P = arr(c + "_P")
+        if P:
+            v["P_le"] = [hx(P[:no]), hx(P[no:2 * no])]
+        V.append(v)
+    return {"source": "bee2 src/crypto/dstu.c (standard curves of DSTU 4145-2002)",
+            "conventions": "field = exponents of the reduction polynomial (t^0 implied); numbers "
+                           "little-endian hex; cofactor * n = group order",
+            "vectors": V}
+
+
 def main():
     lib = None
     if "--check-lib" in sys.argv:
         sys.path.insert(0, os.path.join(os.path.dirname(HERE), "xcheck"))
         import ec_lib
         lib = ec_lib
-    for name, fn in (("bign.json", harvest_bign), ("bake.json", harvest_bake), ("ecp.json", harvest_ecp)):
+    for name, fn in (("bign.json", harvest_bign), ("bake.json", harvest_bake), ("ecp.json", harvest_ecp),
+                     ("ec2.json", harvest_ec2)):
         doc = fn(lib)
         with open(os.path.join(HERE, name), "w") as f:
             json.dump(doc, f, indent=1)
